@@ -23,6 +23,10 @@ pub struct Case {
     /// remove the object after this many packets (of any TOI) have been read
     pub remove_at: Option<usize>,
     pub immediate_stop: Option<bool>,
+    /// 0 = buffer source; 1..4 = stream source without MD5 pass handed over after one byte / in the middle /
+    /// at its end / at its start (cenc must be 0)
+    #[serde(default)]
+    pub stream: u8,
 }
 
 #[derive(Clone, Debug)]
@@ -73,9 +77,15 @@ pub fn run_case(c: &Case, g: &mut G) -> Option<(String, String)> {
         let mut s = sess.sender()?;
         let rec = Arc::new(Rec(Mutex::new(Vec::new())));
         s.subscribe(rec.clone());
+        if c.stream != 0 {
+            o.source = Source::Stream(3);
+            o.stream_start = c.stream % 4;
+            o.md5 = false;
+        }
         let desc = o.desc(None)?;
         let enc: Vec<u8> = match &desc.source {
             ObjectDataSource::Buffer(b) => b.clone(),
+            _ if c.stream != 0 && c.cenc == 0 => o.content(),
             _ => return Err("stream source".into()),
         };
         let tl = desc.transfer_length as usize;
@@ -378,7 +388,7 @@ pub fn run(thorough: bool) -> i32 {
                                 if !thorough && count == 3 {
                                     continue;
                                 }
-                                bases.push(Case { oti: OtiSpec::new(scheme, e, b, parity, len % 2 == 0), len, cenc, interleave, count, carousel, remove_at: None, immediate_stop: None });
+                                bases.push(Case { oti: OtiSpec::new(scheme, e, b, parity, len % 2 == 0), len, cenc, interleave, count, carousel, remove_at: None, immediate_stop: None, stream: 0 });
                             }
                         }
                     }
@@ -396,7 +406,17 @@ pub fn run(thorough: bool) -> i32 {
         (Scheme::NoCode, 2, 3, 0, 3000),
     ] {
         for interleave in [1u8, 3] {
-            bases.push(Case { oti: OtiSpec::new(scheme, e, b, parity, interleave == 1), len, cenc: 0, interleave, count: 1, carousel: false, remove_at: None, immediate_stop: None });
+            bases.push(Case { oti: OtiSpec::new(scheme, e, b, parity, interleave == 1), len, cenc: 0, interleave, count: 1, carousel: false, remove_at: None, immediate_stop: None, stream: 0 });
+        }
+    }
+    // stream sources handed over at any position, no MD5 pass: every transfer still carries the whole object
+    for scheme in [Scheme::NoCode, Scheme::Rs28, Scheme::RaptorQ] {
+        for len in [0usize, 1, 9, 17] {
+            for stream in 1..=4u8 {
+                for (count, carousel) in [(1u32, false), (2, false), (1, true)] {
+                    bases.push(Case { oti: OtiSpec::new(scheme, 4, 2, if scheme == Scheme::NoCode { 0 } else { 1 }, true), len, cenc: 0, interleave: 1 + (len % 2) as u8, count, carousel, remove_at: None, immediate_stop: None, stream });
+                }
+            }
         }
     }
     let nbase = bases.len();
